@@ -108,14 +108,10 @@ func genC07(r *rand.Rand, tier string, idx int) []string {
 	// closing sweep through all layers: every transaction, every block cache, every hash
 	for _, k := range g.keys {
 		for _, t := range g.txns {
-			if !g.txnBlockCommitted(t) {
-				g.emit("tget %s %s", t, k)
-			}
+			g.emit("tget %s %s", t, k)
 		}
 		for _, b := range g.blocks {
-			if !b.committed {
-				g.emit("bget %s %s", b.bid, k)
-			}
+			g.emit("bget %s %s", b.bid, k)
 			g.emit("sget %s %s", k, b.hash)
 		}
 	}
